@@ -54,8 +54,9 @@ class C08Filter:
 
     def _gen(self, uid, pid, none_out=False):
         if none_out: yield None                                   # None is a legal output
+        big = getattr(self, "big_kb", 0)
         for j in range(self.kmap.get(uid, self.kmap.get(str(uid), 1))):
-            yield (uid, j, pid)
+            yield (uid, j, pid, "x" * (1024 * big)) if big else (uid, j, pid)      # (outputs much larger than a pipe buffer)
         self._sleep(uid, "post")
 
     @property
